@@ -395,6 +395,11 @@ raw_harness!(c08_raw_cursor_deleted_slot, {
 
 // ---------------------------------------------------------------------------------------------
 // C14: import keeps matching data; discards only on a real version/format mismatch
+/// `vec_region_name` builds "name/index" with format! (stubbed to an empty string for error
+/// messages); the import harness needs the real name of its one region.
+pub(crate) fn c14_region_name(_name: &str, _index: &str) -> String {
+    String::from("v/usize")
+}
 #[kani::proof]
 #[kani::unwind(10)]
 #[kani::stub(alloc::fmt::format, stubs::format_stub)]
@@ -403,6 +408,7 @@ raw_harness!(c08_raw_cursor_deleted_slot, {
 #[kani::stub(std::vec::Vec::<T>::with_capacity, stubs::with_capacity_stub)]
 #[kani::stub(std::vec::Vec::<T>::reserve, stubs::reserve_stub)]
 #[kani::stub(<[u8]>::to_vec, stubs::to_vec_stub8)]
+#[kani::stub(crate::vec_region_name, c14_region_name)]
 fn c14_raw_import_step() {
     let mut buf: Box<[u8; CAPB]> = Box::new(kani::any());
     // stored header (if the region is long enough to have one)
